@@ -5,7 +5,7 @@ import sysfam, qsys
 
 
 def run(ck):
-    sysfam.run_family(ck, "C10", 60 if ck.tier == "quick" else 1500)
+    sysfam.run_family(ck, "C10", 400 if ck.tier == "quick" else 3000)
 
 
 def replay(ck, path):
